@@ -10,7 +10,8 @@ RULE = ("random Latin / Arabic fonts x category maps (all five values, invalid v
         "vcaret_ anchor sets (fractional, duplicate coordinates) x entry/exit anchors (one-sided, suffixed .LTR/.RTL/.alt pairs, "
         "mixed-direction repertoires, alternates reached through GSUB) x optional user GDEF block x skipExportGlyphs; default "
         "feature writers, or (one case in four) one list of writer instances handed to two or three successive compiles of "
-        "different fonts; non-trivial = the font has categories, carets or cursive anchors; distinct by source digest")
+        "different fonts; plus two-master designspaces with a substitution rule whose replacement glyph carries cursive anchors "
+        "(compileInterpolatableTTFsFromDS / compileVariableTTF with merged layout); non-trivial = the font has categories, carets or cursive anchors; distinct by source digest")
 ASSUMPTIONS = ["without any assigned category feaLib infers the glyph classes from the positioning rules (environment): no clause then"]
 
 
@@ -34,10 +35,58 @@ def cases(tier, seed):
                 d.update({"cid": f"c18-{seed}-{k}+{j + 1}", "lib": c["lib"], "writers": c["writers"]})
                 c["then"].append(d)
         out.append(c)
+    # designspace paths: substitution RULES make a glyph reachable from a character without any GSUB rule in the feature file
+    for k in range(12 if tier == "quick" else 150):
+        c = layout_gen.gdefcurs_font(rng)
+        names = c["ufo"]["glyphNames"]
+        P = 1024
+        if "x.alt" not in names:
+            names.append("x.alt")
+            c["ufo"]["glyphs"]["x.alt"] = {"cs": [layout_gen.box()], "comps": [], "anchors": [], "w": 500 * P, "h": 0, "u": []}
+        # the replacement glyph carries cursive anchors and is not mentioned by the feature file
+        c["ufo"]["glyphs"]["x.alt"]["anchors"] = [{"n": "entry", "x": 300 * P, "y": 0}, {"n": "exit", "x": 0, "y": 20 * P}]
+        c["ufo"]["fea"] = "\n".join(l for l in c["ufo"]["fea"].split("\n") if "x.alt" not in l)
+        src = rng.choice([n for n in ("a", "b", "beh-ar", "period") if n in names] or [names[0]])
+        c.pop("kwargs", None)
+        c.update({"cid": f"c18-{seed}-ds{k}", "lib": rng.choice(["ufoLib2", "defcon"]), "writers": "default", "ds": True,
+                  "rule": [src, "x.alt"], "fn": rng.choice(["interp", "interp", "var-merge", "var-features"])})
+        out.append(c)
     return out
 
 
+def _execute_ds(case):
+    import copy
+
+    import ufo2ft
+
+    from .. import dsbuild, project
+
+    u0 = case["ufo"]
+    u1 = copy.deepcopy(u0)
+    for g in u1["glyphs"].values():
+        if g["w"]:
+            g["w"] += 20 * 1024
+    u1["info"] = dict(u1["info"], styleName="Bold")
+    fam = {"axes": [{"name": "Weight", "tag": "wght", "min": 0, "default": 0, "max": 8}],
+           "masters": [{"loc": {"Weight": 0}, "ufo": u0, "name": "M0"}, {"loc": {"Weight": 8}, "ufo": u1, "name": "M1"}],
+           "rules": [{"name": "r1", "conditionSets": [[{"name": "Weight", "minimum": 4, "maximum": 8}]], "subs": [list(case["rule"])]}]}
+    ds = dsbuild.build_designspace(fam, case["lib"])
+    extra = {case["rule"][0]: {case["rule"][1]}}
+    recs = []
+    if case["fn"] == "interp":
+        outs = [s.font for s in ufo2ft.compileInterpolatableTTFsFromDS(ds, useProductionNames=False).sources]
+    else:
+        outs = [ufo2ft.compileVariableTTF(ds, useProductionNames=False, variableFeatures=case["fn"] == "var-features")]
+    for k, otf in enumerate(outs):
+        data, f2 = project.save_reload(otf)
+        rec = layout_exec.gdefcurs_record(case, f2, f"{case['cid']}-{k}", extra)
+        recs.append(rec)
+    return recs
+
+
 def execute(case):
+    if case.get("ds"):
+        return _execute_ds(case)
     if case.get("then"):
         ws = layout_exec._writers(case)
         recs = []
